@@ -464,6 +464,14 @@ elim: k lo => [|k IH] lo /=; first by rewrite addn0 big_geq.
 rewrite IH addSnnS [RHS]big_ltn //.
 by rewrite -addSnnS ltnS leq_addr.
 Qed.
+Lemma backsubS (R : qmat F) (b : seq F) n k j :
+  backsub RA R b n k.+1 j =
+  if j == (n - k.+1)%N
+  then (qnth RA b (n - k.+1)%N -
+        qsum_from RA (fun l => get R (n - k.+1)%N l * backsub RA R b n k l) (n - k.+1)%N.+1 k)
+       / get R (n - k.+1)%N (n - k.+1)%N
+  else backsub RA R b n k j.
+Proof. by rewrite /= Neqb_eq. Qed.
 
 (* x solves rows i >= n-k of the (upper part of the) system R x = b *)
 Lemma backsub_spec (R : qmat F) (b : seq F) n k :
@@ -473,17 +481,18 @@ Lemma backsub_spec (R : qmat F) (b : seq F) n k :
 Proof.
 move=> hk hD; elim: k hk => [|k IH] hk i.
   by rewrite subn0 => h1 h2; move: (leq_ltn_trans h1 h2); rewrite ltnn.
-move=> hlo hi /=; set i0 := (n - k.+1)%N; set x := backsub RA R b n k.
+move=> hlo hi; set i0 := (n - k.+1)%N.
 have hi0 : (i0 < n)%N by rewrite /i0 -subSn // subSS leq_subr.
 have hi0k : (i0.+1 + k = n)%N by rewrite /i0 addSnnS subnK.
 have hnk : (n - k = i0.+1)%N by rewrite -hi0k addnK.
 move: hlo; rewrite leq_eqVlt => /orP [/eqP hE | hlt].
-  rewrite -hE big_ltn // eqxx /= qsum_fromE hi0k.
-  rewrite (@eq_big_nat _ _ _ _ _ _ (fun j => get R i0 j * x j)); last first.
-    by move=> j /andP [hj _]; rewrite (gtn_eqF hj).
+  rewrite -hE -/i0 big_ltn // backsubS -/i0 eqxx qsum_fromE hi0k.
+  rewrite (@eq_big_nat _ _ _ _ _ (fun j => get R i0 j * backsub RA R b n k.+1 j)
+                                 (fun j => get R i0 j * backsub RA R b n k j)); last first.
+    by move=> j /andP [hj _]; rewrite backsubS -/i0 (gtn_eqF hj).
   by rewrite mulrC divfK ?hD // subrK.
-rewrite (@eq_big_nat _ _ _ _ _ _ (fun j => get R i j * x j)); last first.
-  by move=> j /andP [hj _]; rewrite (gtn_eqF (leq_trans hlt hj)).
+rewrite (@eq_big_nat _ _ _ _ _ _ (fun j => get R i j * backsub RA R b n k j)); last first.
+  by move=> j /andP [hj _]; rewrite backsubS -/i0 (gtn_eqF (leq_trans hlt hj)).
 by apply: IH => //; [apply: ltnW | rewrite hnk].
 Qed.
 
@@ -501,8 +510,8 @@ rewrite /solve_triangular_upper (qwf_nrows hR) (qwf_ncols hR) // (qwf_nrows hB) 
 rewrite !Neqb_refl /= (qwf_transpose hn hB).
 eexists; split; [reflexivity | exact: qwf_qtab |].
 have hT : triu_mx (mx_of n n R) \in unitmx by apply: triu_unit => i; rewrite mxE hD.
-apply: (canRL (mulKVmx hT)).
-apply/matrixP => i c; rewrite !mxE.
+apply: (canRL (mulKmx hT)).
+apply/matrixP => i c; rewrite !mxE; have hc := ltn_ord c; have hi := ltn_ord i.
 rewrite (eq_bigr (fun j : 'I_n => (if (i <= j)%N then get R i j *
            backsub RA R (qtabl (fun j0 => get B j0 c) 0 n) n n j else 0))); last first.
   move=> j _; rewrite !mxE qget_qtab //.
@@ -519,4 +528,191 @@ rewrite (@eq_big_nat _ _ _ _ _ _ (fun j => get R i j *
 by rewrite backsub_spec // ?subnn // qnth_qtabl.
 Qed.
 
+
+(* ---- stable_pinverse ---- *)
+Lemma Nleb_leq (a b : nat) : Nat.leb a b = (a <= b)%N.
+Proof. by elim: a b => [|a IH] [|b] //=; rewrite IH. Qed.
+
+Lemma opt_all_ex X Y (d : X) (e : Y) (f : X -> option Y) (P : X -> Y -> Prop) (l : seq X) :
+  (forall b, (b < size l)%N -> exists2 y, f (nth d l b) = Some y & P (nth d l b) y) ->
+  exists ys, [/\ opt_all (List.map f l) = Some ys, size ys = size l &
+                 forall b, (b < size l)%N -> P (nth d l b) (nth e ys b)].
+Proof.
+elim: l => [|x l IH] h; first by exists [::].
+have [y hy hP] := h 0%N (ltn0Sn _).
+have [ys [hys hs hPs]] : exists ys, [/\ opt_all (List.map f l) = Some ys, size ys = size l &
+                 forall b, (b < size l)%N -> P (nth d l b) (nth e ys b)].
+  by apply: IH => b hb; apply: (h b.+1).
+exists (y :: ys); split; rewrite /= ?hy ?hys ?hs //.
+by case=> [|b] //=; rewrite ltnS; apply: hPs.
+Qed.
+
+Lemma mx_of_transpose m n (B : qmat F) : (0 < m)%N -> qwf m n B ->
+  mx_of n m (qtranspose RA B) = (mx_of m n B)^T.
+Proof.
+move=> hm h; rewrite (qwf_transpose hm h); apply/matrixP => i j.
+by rewrite !mxE qget_qtab.
+Qed.
+
+Lemma qwf_qtranspose m n (B : qmat F) : (0 < m)%N -> qwf m n B -> qwf n m (qtranspose RA B).
+Proof. by move=> hm h; rewrite (qwf_transpose hm h); apply: qwf_qtab. Qed.
+
+Lemma upper_tri_jittered k (R : qmat F) : upper_tri k R -> upper_tri k (jittered k R).
+Proof.
+move=> hU i j hji hi; rewrite qget_qtab ?(ltn_trans hji) //.
+by rewrite (gtn_eqF hji) /= hU.
+Qed.
+
+Lemma jittered_diag_neq0 k (R : qmat F) i : 0 < thr -> (i < k)%N -> get (jittered k R) i i != 0.
+Proof.
+move=> ht hi; apply: (thr_neq0 ht); rewrite qget_qtab // eqxx /=.
+by case: ifP => [|/negbT]; [apply: jit_bound | rewrite -leNgt].
+Qed.
+
+(* the result of the shared part of both branches: for every (Q, R) delivered by the oracle (Q n x k, R k x k upper
+   triangular), stable_qr followed by solve_triangular(R', Q^T) yields  P = R'^-1 Q^T  with R' = R + jitter invertible *)
+Lemma qr_solve_members n k (QR : seq (qmat F * qmat F)) :
+  0 < thr -> (0 < k)%N -> (0 < n)%N ->
+  (forall b, (b < size QR)%N ->
+     [/\ qwf n k (nth dQR QR b).1, qwf k k (nth dQR QR b).2 & upper_tri k (nth dQR QR b).2]) ->
+  exists Ps, [/\ opt_all (List.map (fun qr => solve_triangular_upper RA (snd qr) (qtranspose RA (fst qr)))
+                                   (map (fun qr => (qr.1, jittered k qr.2)) QR)) = Some Ps,
+                 size Ps = size QR &
+     forall b, (b < size QR)%N ->
+       let Q := mx_of n k (nth dQR QR b).1 in let R' := mx_of k k (jittered k (nth dQR QR b).2) in
+       [/\ qwf k n (nth [::] Ps b), R' \in unitmx & mx_of k n (nth [::] Ps b) = invmx R' *m Q^T]].
+Proof.
+move=> ht hk hn h.
+have := @opt_all_ex _ _ dQR [::] (fun qr => solve_triangular_upper RA (snd qr) (qtranspose RA (fst qr)))
+  (fun qr P => [/\ qwf k n P, mx_of k k qr.2 \in unitmx & mx_of k n P = invmx (mx_of k k qr.2) *m (mx_of k n (qtranspose RA qr.1))])
+  (map (fun qr => (qr.1, jittered k qr.2)) QR).
+rewrite size_map; case.
+  move=> b hb; rewrite (nth_map dQR) //=; have [hQ hR hU] := h b hb.
+  have hD i : (i < k)%N -> get (jittered k (nth dQR QR b).2) i i != 0 by apply: jittered_diag_neq0.
+  have [X [hX hwX hmX]] := solve_triangular_upper_spec hk (qwf_qtab _ _ _) (qwf_qtranspose hn hQ) hD.
+  exists X => //; split=> //.
+    apply: upper_unit => [i j hji|i]; rewrite !mxE; [|exact: hD].
+    exact: (upper_tri_jittered hU).
+  by rewrite hmX triu_mx_id //; apply: upper_tri_jittered.
+move=> Ps [hPs hs hP]; exists Ps; split=> // b hb.
+have := hP b hb; rewrite (nth_map dQR) //=; case=> h1 h2 h3; split=> //.
+by rewrite h3 mx_of_transpose //; have [] := h b hb.
+Qed.
+
+(* tall / square input (n x k, k <= n): P_b = R'_b^-1 Q_b^T for every batch member *)
+Theorem stable_pinverse_tall oracle mats n k :
+  0 < thr -> (0 < k)%N -> (k <= n)%N -> (0 < size mats)%N ->
+  (forall b, (b < size mats)%N -> qwf n k (nth [::] mats b)) ->
+  (forall b, (b < size (oracle mats))%N ->
+     [/\ qwf n k (nth dQR (oracle mats) b).1, qwf k k (nth dQR (oracle mats) b).2 &
+         upper_tri k (nth dQR (oracle mats) b).2]) ->
+  exists Ps, [/\ stable_pinverse RA oracle mats = Some Ps, size Ps = size (oracle mats) &
+     forall b, (b < size (oracle mats))%N ->
+       let Q := mx_of n k (nth dQR (oracle mats) b).1 in
+       let R' := mx_of k k (jittered k (nth dQR (oracle mats) b).2) in
+       [/\ qwf k n (nth [::] Ps b), R' \in unitmx & mx_of k n (nth [::] Ps b) = invmx R' *m Q^T]].
+Proof.
+move=> ht hk hkn hs hA hO; have hn : (0 < n)%N by apply: leq_trans hkn.
+rewrite /stable_pinverse; case: mats hs hA hO => // A0 mats _ hA hO.
+have hA0 := hA 0%N (ltn0Sn _); rewrite /= in hA0.
+rewrite (qwf_ncols hA0) // (qwf_nrows hA0); rewrite Nleb_leq hkn.
+have hall : all (fun qr => qwf k k qr.2) (oracle (A0 :: mats)).
+  by apply: wf_all => b hb; have [] := hO b hb.
+rewrite (stable_qr_square hall) /opt_bind.
+exact: (qr_solve_members ht hk hn hO).
+Qed.
+
+(* fat input (k x n, k < n): stable_qr runs on the transposes and P_b = (R'_b^-1 Q_b^T)^T *)
+Theorem stable_pinverse_fat oracle mats n k :
+  0 < thr -> (0 < k)%N -> (k < n)%N -> (0 < size mats)%N ->
+  (forall b, (b < size mats)%N -> qwf k n (nth [::] mats b)) ->
+  let QR := oracle (List.map (qtranspose RA) mats) in
+  (forall b, (b < size QR)%N ->
+     [/\ qwf n k (nth dQR QR b).1, qwf k k (nth dQR QR b).2 & upper_tri k (nth dQR QR b).2]) ->
+  exists Ps, [/\ stable_pinverse RA oracle mats = Some Ps, size Ps = size QR &
+     forall b, (b < size QR)%N ->
+       let Q := mx_of n k (nth dQR QR b).1 in let R' := mx_of k k (jittered k (nth dQR QR b).2) in
+       [/\ qwf n k (nth [::] Ps b), R' \in unitmx & mx_of n k (nth [::] Ps b) = (invmx R' *m Q^T)^T]].
+Proof.
+move=> ht hk hkn hs hA QR hO; have hn : (0 < n)%N by apply: leq_trans hkn.
+rewrite /stable_pinverse; case: mats hs hA @QR hO => // A0 mats _ hA QR hO.
+have hA0 := hA 0%N (ltn0Sn _); rewrite /= in hA0.
+rewrite (qwf_ncols hA0) // (qwf_nrows hA0).
+rewrite Nleb_leq leqNgt hkn /=.
+have hall : all (fun qr => qwf k k qr.2) QR by apply: wf_all => b hb; have [] := hO b hb.
+rewrite -/QR (stable_qr_square hall) /opt_bind.
+have [Ps [hPs hsz hP]] := qr_solve_members ht hk hn hO.
+have := @opt_all_ex _ _ dQR [::]
+  (fun qr => opt_map (qtranspose RA) (solve_triangular_upper RA (snd qr) (qtranspose RA (fst qr))))
+  (fun qr P => True) (map (fun qr => (qr.1, jittered k qr.2)) QR).
+(* direct route: opt_all (map (opt_map g o f)) = opt_map (map g) (opt_all (map f)) *)
+move=> _.
+have hmap X Y Z (f : X -> option Y) (g : Y -> Z) (l : seq X) ys :
+    opt_all (List.map f l) = Some ys ->
+    opt_all (List.map (fun x => opt_map g (f x)) l) = Some (map g ys).
+  elim: l ys => [|x l IH] ys /=; first by case=> <-.
+  case: (f x) => // y; case hl: (opt_all _) => [zs|] // [<-] /=.
+  by rewrite (IH zs hl).
+exists (map (qtranspose RA) Ps); split; [exact: (hmap _ _ _ _ _ _ _ hPs) | by rewrite size_map |].
+move=> b hb; have [h1 h2 h3] := hP b hb.
+rewrite (nth_map [::]) ?hsz //; split=> //; first exact: (qwf_qtranspose hk h1).
+by rewrite mx_of_transpose // h3.
+Qed.
+
 End QRField.
+
+(* ---- the algebra behind "pseudo-inverse" (pure MathComp, any field): if A = Q R with orthonormal columns
+        (Q^T Q = 1) and R invertible, then P = R^-1 Q^T satisfies all four Moore-Penrose conditions and P A = 1 ---- *)
+Section PinvAlgebra.
+Variable F : fieldType.
+Local Open Scope ring_scope.
+Variables (n k : nat) (A Q : 'M[F]_(n, k)) (R : 'M[F]_k).
+Hypothesis hA : A = Q *m R.
+Hypothesis hQ : Q^T *m Q = 1%:M.
+Hypothesis hR : R \in unitmx.
+Let P := invmx R *m Q^T.
+
+Lemma pinv_left_inverse : P *m A = 1%:M.
+Proof. by rewrite /P hA mulmxA -(mulmxA (invmx R)) hQ mulmx1 mulVmx. Qed.
+
+Lemma pinv_range_projector : A *m P = Q *m Q^T.
+Proof. by rewrite /P hA mulmxA -(mulmxA Q) mulmxV // mulmx1. Qed.
+
+Lemma pinv_penrose :
+  [/\ A *m P *m A = A, P *m A *m P = P, (A *m P)^T = A *m P & (P *m A)^T = P *m A].
+Proof.
+split.
+- by rewrite -mulmxA pinv_left_inverse mulmx1.
+- by rewrite pinv_left_inverse mul1mx.
+- by rewrite pinv_range_projector trmx_mul trmxK.
+- by rewrite pinv_left_inverse trmx1.
+Qed.
+End PinvAlgebra.
+
+(* fat case by transposition: A^T = Q R  ==>  P = (R^-1 Q^T)^T is a right inverse and satisfies the four conditions *)
+Section PinvAlgebraFat.
+Variable F : fieldType.
+Local Open Scope ring_scope.
+Variables (n k : nat) (A : 'M[F]_(k, n)) (Q : 'M[F]_(n, k)) (R : 'M[F]_k).
+Hypothesis hA : A^T = Q *m R.
+Hypothesis hQ : Q^T *m Q = 1%:M.
+Hypothesis hR : R \in unitmx.
+Let P := (invmx R *m Q^T)^T.
+
+Lemma pinv_fat_right_inverse : A *m P = 1%:M.
+Proof.
+by rewrite /P -[A]trmxK -trmx_mul (pinv_left_inverse hA hQ hR) trmx1.
+Qed.
+
+Lemma pinv_fat_penrose :
+  [/\ A *m P *m A = A, P *m A *m P = P, (A *m P)^T = A *m P & (P *m A)^T = P *m A].
+Proof.
+have [h1 h2 h3 h4] := pinv_penrose hA hQ hR.
+split.
+- by rewrite pinv_fat_right_inverse mul1mx.
+- by rewrite -mulmxA pinv_fat_right_inverse mulmx1.
+- by rewrite pinv_fat_right_inverse trmx1.
+- have hPA : P *m A = (A^T *m (invmx R *m Q^T))^T by rewrite trmx_mul trmxK.
+  by rewrite hPA trmxK h3.
+Qed.
+End PinvAlgebraFat.
